@@ -78,6 +78,8 @@ def case_strategy(draw, big=False):
                 l['attach'] = [draw(st.sampled_from(gp))]
             else:
                 l['attach'] = [draw(st.integers(0, len(topo.pulses) - 1))]
+            if draw(st.integers(0, 4)) == 0:
+                l['attach'] = l['attach'] * 2          # attached twice: the load appears twice, in series
             lds.append(l)
         elif kind == 'skin' and not any(x['kind'].startswith('skin') for x in lds):
             lds.append({'kind': 'skin_c', 'v': gen.r6(draw(gen.logf(1e4, 1e8))), 'tag': draw(st.sampled_from([None] + tagsl))})
